@@ -229,7 +229,7 @@ impl Scenario for C06 {
         "Per seeded server stream (2-12 items of real frames: heartbeats, blocked notices, acks, deliveries to two consumers with bodies 0..9000 bytes in frames from a few bytes to beyond the 4096-byte read quantum, now and then one body frame of 16-70 kB; ended by a bad end octet (method or body frame) / unknown frame type / short arguments, by EOF, or by Connection.Close, followed by further valid deliveries that must not be acted on) the passive client (two consumers blocked on their queues) receives the stream under many segmentations: whole; every single cut (thorough: every offset; quick: every frame boundary +-1 and every 29th offset); random multi-cuts; 1-byte dribble for short streams; each segment 5 ms of simulated time after the previous one, with short reads. Oracle: each consumer obtains exactly the deliveries before the ending, intact and in order (nothing after it), Connection::close reports MalformedFrame / UnexpectedSocketClose / ServerClosedConnection as the stream dictates, and every delivery is obtained after the segment carrying the last byte of its last frame arrived and before the next segment arrives (\"as soon as its last byte has arrived\"). Differential by construction: all segmentations of one stream are compared with the same reference. Non-trivial = a cut fell strictly inside a frame; distinct = (stream seed, cut set).".to_string()
     }
     fn plan(&self, thorough: bool, seed: u64) -> Vec<CaseSpec> {
-        let n_streams = if thorough { 120 } else { 30 };
+        let n_streams = if thorough { 240 } else { 40 };
         let mut v = Vec::new();
         for s in seeds_for("C06", "stream", seed, n_streams) {
             let st = build_stream(s);
